@@ -138,7 +138,17 @@ def cases(rng, tier, shard, nshards):
             continue
         k = rng.choice([-1, 0, 1, 2, 2, 3, 3, 4])
         given = rng.random() < 0.3 and k >= 2
-        yield {"version": version, "lines": lines, "segment": rng.choice(names), "factor": k,
+        prelude = []
+        if rng.random() < 0.3:
+            for _ in range(rng.randint(1, 3)):
+                o = rng.random()
+                if o < 0.3:
+                    prelude.append(["names"])
+                elif o < 0.7:
+                    prelude.append(["multiply", rng.choice(names), rng.choice([0, 2, 2, 3])])
+                else:
+                    prelude.append(["rename", rng.choice(names), rng.choice(names) + "*%d" % rng.randint(2, 3)])
+        yield {"version": version, "lines": lines, "segment": rng.choice(names), "factor": k, "prelude": prelude,
                "distribute": rng.choice([None, None, "off", "auto", "equal", "L", "R"]),
                "copy_names": ["cp%d" % i for i in range(k - 1)] if given else None, "feats": feats,
                "by": rng.choice(["name", "line"])}
@@ -256,7 +266,23 @@ def run(case, ctx):
         ctx.violation("valid-document-refused/%s" % r.cls(), "%r: %s" % (lines, str(r.exc)[:200]), prop="C01")
         return
     g = r.value
+    for op in case.get("prelude") or []:
+        # earlier operations on the same Gfa (their own effect is judged when they are the last one):
+        # what they leave behind must not change the judged multiplication
+        try:
+            if op[0] == "names":
+                list(g.names)
+            elif op[0] == "multiply" and g.segment(op[1]) is not None:
+                g.multiply(op[1], op[2])
+            elif op[0] == "rename" and g.segment(op[1]) is not None and g.line(op[2]) is None:
+                g.segment(op[1]).name = op[2]
+        except gfapy.Error:
+            return
+        ctx.count("prelude_operations")
+    if g.segment(sname) is None:
+        return
     before = [O.safe_str(l) for l in g.lines]
+    lines = before
     brecs = [S.parse_line(l, version) for l in before]
     kw = {}
     if case["distribute"] is not None:
